@@ -267,7 +267,9 @@ def sibling_builders(facts, res):
                 return out
             ha, hb = helpers_called(fa), helpers_called(fb)
             one_sided = sorted((ha ^ hb) - {"getBoxPosFromIndex", "getIndexFromBoxPos", "getParentIndex", "getChildIndexFromParent", "getRelativePosFromInteractionIndex", "getRelativePosFromNeighborIndex"}
-                               - {h_ for h_ in (ha ^ hb) if parent_lemma(cls, h_) if len(own[h_].get("params", [])) == 1 and "array" in own[h_]["params"][0].get("t", "")})
+                               - {h_ for h_ in (ha ^ hb) if len(own[h_].get("params", [])) == 1 and "array" in own[h_]["params"][0].get("t", "")})
+            # (a one-parameter coordinate helper is either rewritten by the proven parent lemma, or - lemma not provable for this ordering -
+            #  left in place: the comparison below then reports that one builder takes the parent's coordinates from somewhere else)
             if one_sided:
                 raise AnalysisBroken("%s: %s calls the helper %s(), which %s does not: part of one builder was moved into it; the per-cell / per-group comparison cannot follow - re-confirm by reading"
                                      % (cls, x if one_sided[0] in ha else y, one_sided[0], y if one_sided[0] in ha else x))
